@@ -276,7 +276,7 @@ let analysis (id : int) (kind : string) (cfg : config) (big : bool) (nph : int) 
   (* ---------------- the end of the analysis *)
   let mreg = if big then sm_registry m else sort_reg !st.sh.commits in
   if self_check && not (reg_eq (sm_registry m) mreg) then failwith "internal: the indexed registry differs from the extracted model's";
-  let (greg, preg_opt) = (match args fin with
+  let (greg, preg_opt, same_map) = (match args fin with
     | dsx :: pub :: same :: reg :: rest ->
         if not (zeq (zs dsx) d) then mismatch id ("TickSize impl=" ^ atom dsx ^ " model=" ^ string_of_z d);
         (* the published fact is what Configure computed (before Initialize replaces a zero size) *)
@@ -304,9 +304,7 @@ let analysis (id : int) (kind : string) (cfg : config) (big : bool) (nph : int) 
                    if not (zeq (time_of_unix s n) Z0) then mismatch id ("after Initialize tick0 impl=" ^ string_of_z (time_of_unix s n) ^ " model=0")
                | _ -> failwith "after")
           | _ -> ()) rest;
-        if not (bool_of_sx same) then
-          propfail id "the branches and the registry published in facts[TicksSinceStart.Commits] at Configure time are not one commits registry";
-        (reg_of_sx reg, pubreg)
+        (reg_of_sx reg, pubreg, bool_of_sx same)
     | _ -> failwith "end observation") in
   if not (reg_eq greg mreg) then
     mismatch id ("final registry impl=" ^ show_reg greg ^ " model=" ^ show_reg mreg);
@@ -403,6 +401,8 @@ let analysis (id : int) (kind : string) (cfg : config) (big : bool) (nph : int) 
         if only_consumed r evs <> !only then failwith "internal: indexed only_consumed differs";
         List.iter (fun e -> if int_of_nat (reg_count r (fst e).c_hash) <> count_of cnt (fst e).c_hash then failwith "internal: indexed reg_count differs") evs
       end) indexed;
+    if not same_map then
+      propfail id "the branches and the registry published in facts[TicksSinceStart.Commits] at Configure time are not one commits registry";
     let positive = (match d with Zpos _ -> true | _ -> false) in
     match shape flat outs with
     | Some c0 when positive && evs <> [] ->
